@@ -1,5 +1,256 @@
 import NibabelModel.Model.C13
-/-! Props/C13 — the property theorems for C13 (statements + proofs; helper lemmas live in Lemmas/). -/
+import NibabelModel.Lemmas.C13
+import NibabelModel.Lemmas.C13_Cor
+/-!
+Props/C13 — the image data cache and its aliases follow the documented model.
+
+`State`/`step` (Model/C13.lean) model `DataobjImage.get_fdata / get_data / in_memory / uncache` over a
+heap of array identities, for array images and proxy images; `Spec`/`Spec.step` is the documented model
+(doc/source/images_and_memory.rst): the image's data source plus at most one cached array per cache, no
+heap.  All theorems quantify over arbitrary (unbounded) op sequences and arbitrary well-formed states;
+`State.WF` (ids in use are below the heap size) holds initially and is preserved (`step_wf`, `run_wf`).
+-/
 namespace Nb.C13
+open Nb
+
+/-! ## Invariant -/
+
+theorem step_wf {s : State} (h : s.WF) (op : Op) : (step s op).1.WF := step_wf' h op
+
+theorem run_wf {s : State} (h : s.WF) (ops : List Op) : (run s ops).WF := run_wf' h ops
+
+example : (initArray ⟨.i2, [3, 4, 5], false⟩ ⟨some (2, 1), 3, .i2⟩).WF := initArray_wf _ _
+example : (initProxy [3, 4, 5] ⟨some (2, 1), 3, .i2⟩).WF := initProxy_wf _ _
+
+/-! ## Refinement of the documented model -/
+
+/-- One step: the implementation model produces exactly the documented model's output, and the
+    abstraction map (forget all arrays the image does not refer to) commutes with the step. -/
+theorem refines_doc_model_step {s : State} (h : s.WF) (op : Op) :
+    (step s op).2 = (Spec.step (abs s) op).2 ∧ abs (step s op).1 = (Spec.step (abs s) op).1 :=
+  ⟨(sim_step h op).2, (sim_step h op).1⟩
+
+/-- Any history: the whole output trace is the documented model's trace, and the final states
+    correspond. -/
+theorem refines_doc_model {s : State} (h : s.WF) (ops : List Op) :
+    trace s ops = Spec.trace (abs s) ops ∧ abs (run s ops) = Spec.run (abs s) ops :=
+  sim_run h ops
+
+-- the documented model's initial states are the abstractions of the constructors' states
+example : abs (initProxy [3, 4, 5] ⟨some (2, 1), 3, .i2⟩) =
+    { img := .proxy [3, 4, 5] ⟨.i2, 2, 1⟩, fcache := none, dcache := none, next := 0, last := none,
+      imgHdr := ⟨none, 3, .i2⟩, origHdr := ⟨some (2, 1), 3, .i2⟩ } := by decide
+example : abs (initArray ⟨.f8, [3, 4], false⟩ ⟨none, 2, .f8⟩) =
+    { img := .array (0, ⟨.f8, [3, 4], false⟩), fcache := none, dcache := none, next := 1, last := none,
+      imgHdr := ⟨none, 2, .f8⟩, origHdr := ⟨none, 2, .f8⟩ } := by decide
+-- a non-trivial trace on which both sides are evaluated
+example : trace (initProxy [3, 4] ⟨some (2, 1), 2, .i2⟩)
+      [.getFdata .fill .f4, .editLast, .getFdata .unchanged .f4, .uncache, .getFdata .unchanged .f4]
+    = [⟨.arr 0 ⟨.f4, [7, 9], false⟩, true⟩, ⟨.unit, true⟩, ⟨.arr 0 ⟨.f4, [8, 10], false⟩, true⟩,
+       ⟨.unit, false⟩, ⟨.arr 1 ⟨.f4, [7, 9], false⟩, false⟩] := by decide
+
+/-! ## Cache identity -/
+
+/-- After a filling `get_fdata(dtype=d)`, every later `get_fdata(dtype=d)` (either caching mode) returns
+    the *same array* (same identity), whatever happens in between — reads of any kind, edits, header
+    edits — as long as there is no `uncache` and no filling read of another float dtype.  The array
+    returned is the cache content at that time (so edits made through it are seen). -/
+theorem cache_identity {s : State} (h : s.WF) (d : DT) (hd : d ≠ .i2) (ops : List Op)
+    (hk : ∀ op ∈ ops, keepsCache d op = true) (c' : Caching) (hc' : c' ≠ .other) :
+    ∃ id a a',
+      (step s (.getFdata .fill d)).2.res = .arr id a ∧ a.dt = d ∧
+      (step (run (step s (.getFdata .fill d)).1 ops) (.getFdata c' d)).2.res = .arr id a' ∧ a'.dt = d ∧
+      (run (step s (.getFdata .fill d)).1 ops).fcache = some id ∧
+      a' = (run (step s (.getFdata .fill d)).1 ops).get id := by
+  have h1 := step_wf' h (.getFdata .fill d)
+  have s1 := sim_step h (.getFdata .fill d)
+  obtain ⟨id, a, hres, hdt, hholds⟩ := Spec.fill_holds (abs s) d hd
+  rw [← s1.1] at hholds
+  have hrun := Spec.holds_run hholds ops hk
+  rw [← (sim_run h1 ops).2] at hrun
+  obtain ⟨a', hres', hdt', hfc⟩ := Spec.holds_get hrun c' hc' hd
+  have h2 := run_wf' h1 ops
+  rw [← (sim_step h2 (.getFdata c' d)).2] at hres'
+  refine ⟨id, a, a', by rw [s1.2]; exact hres, hdt, hres', hdt', ?_, ?_⟩
+  · simp only [abs] at hfc
+    cases hf : (run (step s (.getFdata .fill d)).1 ops).fcache with
+    | none => rw [hf] at hfc; cases hfc
+    | some i => rw [hf] at hfc; simp only [Option.map_some] at hfc; cases hfc; rfl
+  · simp only [abs] at hfc
+    cases hf : (run (step s (.getFdata .fill d)).1 ops).fcache with
+    | none => rw [hf] at hfc; cases hfc
+    | some i => rw [hf] at hfc; simp only [Option.map_some] at hfc; cases hfc; rfl
+
+example : (initProxy [3, 4, 5] ⟨some (2, 1), 3, .i2⟩).WF ∧ DT.f4 ≠ .i2 ∧
+    (∀ op ∈ [Op.editLast, .getFdata .unchanged .f8, .asarray, .getFdata .fill .f4, .getData .fill,
+             .hdr .img (.scale 3 5), .edit 0], keepsCache .f4 op = true) ∧ Caching.unchanged ≠ .other :=
+  ⟨initProxy_wf _ _, by decide, by decide, by decide⟩
+
+/-- Every array identity handed out during a history is smaller than the heap size at its end; an
+    array created afterwards gets that heap size as identity, so it is different from all of them. -/
+theorem fresh_identity_is_new {s : State} (h : s.WF) (ops : List Op) :
+    ∀ o ∈ trace s ops, ∀ id a, o.res = .arr id a → id < (run s ops).heap.length :=
+  trace_ids_lt h ops
+
+example : (⟨.arr 1 ⟨.f4, [3], false⟩, false⟩ : Out) ∈
+    trace (initProxy [3] ⟨none, 1, .f4⟩) [.getFdata .unchanged .f8, .asarray] := by decide
+
+/-! ## Uncached reads reflect the file -/
+
+/-- The image's data source (the own array's identity, or the file values and the proxy parameters
+    copied at construction) is never changed by any history. -/
+theorem source_never_changes (s : State) (ops : List Op) : (run s ops).img = s.img := run_img s ops
+
+/-- Proxy image built from header `h` over file values `raw`, after ANY history: a `get_fdata` that does
+    not hit the cache (cache empty, or holding another dtype), `np.asarray(dataobj)`, a proxy slice and
+    a `get_data` with empty legacy cache each return a NEW array (identity = current heap size, see
+    `fresh_identity_is_new`) holding exactly the file's values scaled with the parameters the header
+    had at construction — no earlier edit of any returned array is visible. -/
+theorem uncached_reflects_file (raw : List Int) (h : Hdr) (ops : List Op) (c : Caching) (d : DT)
+    (hc : c ≠ .other) (hd : d ≠ .i2) (sl : PySlice) (hz : sl.stepVal ≠ 0) :
+    let s := run (initProxy raw h) ops
+    let p := Par.ofHdr h
+    ((s.fcache = none ∨ ∃ i, s.fcache = some i ∧ (s.get i).dt ≠ d) →
+        (step s (.getFdata c d)).2.res = .arr s.heap.length ⟨d, p.scaled raw, false⟩) ∧
+    (step s .asarray).2.res = .arr s.heap.length ⟨p.outDt, p.scaled raw, false⟩ ∧
+    (step s (.slice sl)).2.res = .arr s.heap.length ⟨p.outDt, sl.apply (p.scaled raw), p.sliceRO sl raw.length⟩ ∧
+    (s.dcache = none → (step s (.getData c)).2.res = .arr s.heap.length ⟨p.outDt, p.scaled raw, false⟩) := by
+  intro s p
+  have hi : s.img = .proxy raw p := run_img _ ops
+  exact ⟨fun hm => miss_proxy hi c d hc hd ((fhit_none_iff s d).mpr hm), asarray_proxy hi,
+    slice_proxy hi sl hz, fun hdc => getData_proxy hi c hc hdc⟩
+
+example : Caching.unchanged ≠ .other ∧ DT.f8 ≠ .i2 ∧ (⟨none, some 1, some 2⟩ : PySlice).stepVal ≠ 0 ∧
+    (run (initProxy [3, 4, 5] ⟨some (2, 1), 3, .i2⟩) [.getFdata .fill .f4, .editLast]).fcache = some 0 ∧
+    ((run (initProxy [3, 4, 5] ⟨some (2, 1), 3, .i2⟩) [.getFdata .fill .f4, .editLast]).get 0).dt ≠ .f8 := by
+  decide
+
+/-- Array image (its array is heap object 0, of dtype `a.dt`), after ANY history: a `get_fdata` that
+    does not hit the cache returns the image's own array itself when the dtype matches, otherwise a new
+    array holding the own array's CURRENT values (edits made through any alias of the own array are
+    visible); `np.asarray(dataobj)` is always the own array. -/
+theorem uncached_reflects_own_array (a : Arr) (h : Hdr) (ops : List Op) (c : Caching) (d : DT)
+    (hc : c ≠ .other) (hd : d ≠ .i2) :
+    let s := run (initArray a h) ops
+    ((s.fcache = none ∨ ∃ i, s.fcache = some i ∧ (s.get i).dt ≠ d) →
+        (step s (.getFdata c d)).2.res =
+          if a.dt = d then .arr 0 (s.get 0) else .arr s.heap.length ⟨d, (s.get 0).vals, false⟩) ∧
+    (step s .asarray).2.res = .arr 0 (s.get 0) ∧ (s.get 0).dt = a.dt := by
+  intro s
+  have hi : s.img = .array 0 := run_img _ ops
+  have hdt : (s.get 0).dt = a.dt := (run_get_dt (initArray a h) ops (i := 0) (by simp [initArray])).1
+  refine ⟨fun hm => ?_, asarray_array hi, hdt⟩
+  rw [miss_array hi c d hc hd ((fhit_none_iff s d).mpr hm), hdt]
+
+example : (run (initArray ⟨.f8, [3, 4], false⟩ ⟨none, 2, .f8⟩) [.getFdata .fill .f4, .edit 0]).fcache = some 1 ∧
+    ((run (initArray ⟨.f8, [3, 4], false⟩ ⟨none, 2, .f8⟩) [.getFdata .fill .f4, .edit 0]).get 1).dt ≠ .f8 := by
+  decide
+
+/-! ## Edits are visible only through the cache or the image's own array -/
+
+/-- An array that is neither the image's own array nor in a cache stays so forever. -/
+theorem garbage_stays_garbage {s : State} {k : Nat} (hg : s.Garbage k) (hk : k < s.heap.length)
+    (ops : List Op) : (run s ops).Garbage k ∧ k < (run s ops).heap.length := by
+  induction ops generalizing s with
+  | nil => exact ⟨hg, hk⟩
+  | cons op ops ih =>
+    exact ih (step_garbage hg hk op) (Nat.lt_of_lt_of_le hk (step_len_le s op))
+
+example : (run (initProxy [3] ⟨none, 1, .f4⟩) [.asarray]).Garbage 0 ∧
+    0 < (run (initProxy [3] ⟨none, 1, .f4⟩) [.asarray]).heap.length := by
+  refine ⟨⟨?_, ?_, ?_⟩, ?_⟩ <;> decide
+
+/-- An in-place edit, at any point of any history, of an array that at that moment is neither the
+    image's own array nor held by a cache changes NOTHING that is observed afterwards: all later
+    outputs (identities, dtypes, values, writeability, in_memory) are those of the history without the
+    edit, and the image ends in the same abstract state. -/
+theorem edits_visible_only_via_cache_or_own_array {s : State} (h : s.WF) (pre post : List Op) (k : Nat)
+    (hg : (run s pre).Garbage k) :
+    trace s (pre ++ .edit k :: post)
+      = trace s pre ++ (step (run s pre) (.edit k)).2 :: trace (run s pre) post ∧
+    trace s (pre ++ post) = trace s pre ++ trace (run s pre) post ∧
+    abs (run s (pre ++ .edit k :: post)) = abs (run s (pre ++ post)) := by
+  have hw := run_wf' h pre
+  have he : abs (step (run s pre) (.edit k)).1 = abs (run s pre) := abs_edit_garbage hg
+  have hwe : (step (run s pre) (.edit k)).1.WF := step_wf' hw _
+  have ht : trace (step (run s pre) (.edit k)).1 post = trace (run s pre) post := by
+    rw [(sim_run hwe post).1, (sim_run hw post).1, he]
+  refine ⟨?_, trace_append s pre post, ?_⟩
+  · rw [trace_append]; simp only [trace, ht]
+  · rw [run_append, run_append]
+    simp only [run]
+    rw [(sim_run hwe post).2, (sim_run hw post).2, he]
+
+example : (run (initProxy [3, 4] ⟨none, 2, .f4⟩) [.getFdata .unchanged .f8, .getFdata .fill .f8]).Garbage 0 := by
+  refine ⟨?_, ?_, ?_⟩ <;> decide
+
+/-- Conversely, an edit of the cached array IS seen by the next `get_fdata` of that dtype: same
+    identity, values + 1. -/
+theorem edit_of_cache_is_visible {s : State} {id : Nat} {d : DT} (h : s.WF) (hf : s.fcache = some id)
+    (hdt : (s.get id).dt = d) (hro : (s.get id).ro = false)
+    (c : Caching) (hc : c ≠ .other) (hd : d ≠ .i2) :
+    (step (step s (.edit id)).1 (.getFdata c d)).2.res
+      = .arr id ⟨d, (s.get id).vals.map (· + 1), false⟩ :=
+  edit_cache_visible h hf hdt hro c hc hd
+
+example : let s := run (initProxy [3, 4] ⟨none, 2, .f4⟩) [.getFdata .fill .f8]
+    s.WF ∧ s.fcache = some 0 ∧ (s.get 0).dt = .f8 ∧ (s.get 0).ro = false :=
+  ⟨run_wf' (initProxy_wf _ _) _, by decide, by decide, by decide⟩
+
+/-- And an edit of an array image's own array is seen by the next `get_fdata` that does not hit the
+    cache (the own array is the image's "file"). -/
+theorem edit_of_own_array_is_visible {s : State} {own : Nat} (h : s.WF) (hi : s.img = .array own)
+    (hro : (s.get own).ro = false) (c : Caching) (d : DT) (hc : c ≠ .other) (hd : d ≠ .i2)
+    (hm : s.fcache = none ∨ ∃ i, s.fcache = some i ∧ (s.get i).dt ≠ d) :
+    (step (step s (.edit own)).1 (.getFdata c d)).2.res =
+      if (s.get own).dt = d then .arr own ⟨d, (s.get own).vals.map (· + 1), false⟩
+      else .arr s.heap.length ⟨d, (s.get own).vals.map (· + 1), false⟩ :=
+  edit_own_visible h hi hro c d hc hd ((fhit_none_iff s d).mpr hm)
+
+example : let s := initArray ⟨.i2, [3, 4], false⟩ ⟨none, 2, .i2⟩
+    s.WF ∧ s.img = .array 0 ∧ (s.get 0).ro = false ∧ s.fcache = none :=
+  ⟨initArray_wf _ _, rfl, rfl, rfl⟩
+
+/-! ## in_memory -/
+
+/-- The `in_memory` value reported after any history `pre ++ [op]`: always true for an array image; for
+    a proxy image true exactly when the last cache event of the history (a valid filling `get_fdata` /
+    `get_data`, or `uncache`) is a filling read (`filled`, starting from the initial value). -/
+theorem in_memory_iff (s : State) (pre : List Op) (op : Op) :
+    (step (run s pre) op).2.inMem = (s.img.isArray || filled s.inMemory (pre ++ [op])) := by
+  rw [step_out_inMem]
+  have := run_inMemory (pre ++ [op]) s
+  rw [run_append] at this
+  exact this
+
+/-- The same for the states themselves (proxy image from its constructor: not in memory initially). -/
+theorem in_memory_history (raw : List Int) (h : Hdr) (ops : List Op) :
+    (run (initProxy raw h) ops).inMemory = filled false ops := by
+  rw [run_inMemory]; rfl
+
+example : filled false [.getFdata .fill .f4, .uncache, .getFdata .unchanged .f8] = false ∧
+    filled false [.uncache, .getData .fill, .getFdata .fill .i2] = true := by decide
+
+/-! ## Header edits -/
+
+/-- What the image returns (all outputs of the non-header ops: identities, dtypes, values,
+    in_memory) is the same as if the header edits — on `img.header` or on the header object the image
+    was built from — had not happened at all. -/
+theorem proxy_ignores_header_edits (s : State) (ops : List Op) :
+    dataTrace s ops = trace s (ops.filter (fun o => !o.isHdr)) :=
+  dataTrace_eq_filter s ops
+
+/-- … and does not depend on the current contents of either header object: after construction the
+    proxy uses only the parameters it copied (`Par.ofHdr`, frozen by `source_never_changes`). -/
+theorem proxy_ignores_header_values (s : State) (a b : Hdr) (ops : List Op) :
+    dataTrace (s.withHdrs a b) ops = dataTrace s ops :=
+  dataTrace_withHdrs s a b ops
+
+example : (initProxy [3] ⟨some (2, 1), 1, .i2⟩).withHdrs ⟨none, 7, .f8⟩ ⟨some (3, 5), 2, .f4⟩
+    ≠ initProxy [3] ⟨some (2, 1), 1, .i2⟩ := by decide
+
+example : dataTrace (initProxy [3, 4] ⟨some (2, 1), 2, .i2⟩)
+      [.hdr .orig (.scale 3 5), .getFdata .fill .f8, .hdr .img (.dtype .f4), .hdr .orig (.shape 1), .asarray]
+    = [⟨.arr 0 ⟨.f8, [7, 9], false⟩, true⟩, ⟨.arr 1 ⟨.f8, [7, 9], false⟩, true⟩] := by decide
 
 end Nb.C13
